@@ -907,8 +907,10 @@ int parity_read(struct snapraid_parity_handle* handle, block_off_t pos, unsigned
 		/* LCOV_EXCL_STOP */
 	}
 
-	/* if read is completely out of the valid range */
-	if (offset >= split->valid_size) {
+	/* if read is completely or partially out of the valid range */
+	/* a block cut by the end of the valid data cannot be trusted, because */
+	/* the missing tail would be read as zeros if the file was grown meanwhile */
+	if (offset + block_size > split->valid_size) {
 		/* LCOV_EXCL_START */
 		out("Missing data reading file '%s' at offset %" PRIu64 " for size %u.\n", split->path, offset, block_size);
 		return -1;
